@@ -36,7 +36,9 @@ REQUIRED = ["Sqfs.C15.ostream_transparent", "Sqfs.C15.ostream_transparent_single
             "Sqfs.C15.backend_corrupt_is_error", "Sqfs.C15.zstd_corrupt_is_error", "Sqfs.C15.toy_error_conventions_satisfiable",
             "Sqfs.C15.toy_dead_example",
             "Sqfs.C15.toy_library_meets_convention", "Sqfs.C15.toy_encoder_meets_contract", "Sqfs.C15.toy_decoder_meets_contract",
-            "Sqfs.C15.toy_decode_encode", "Sqfs.C15.probe_spec"]
+            "Sqfs.C15.toy_decode_encode", "Sqfs.C15.tarProbe_iff", "Sqfs.C15.magic_unambiguous", "Sqfs.C15.probe_spec",
+            "Sqfs.C15.ostream_failure_model_agrees", "Sqfs.C15.istream_failure_model_agrees", "Sqfs.C15.ostream_write_error_reported",
+            "Sqfs.C15.ostream_flush_error_reported", "Sqfs.C15.istream_read_error_reported"]
 CODECS = ["gzip", "xz", "bzip2", "zstd"]
 MAGIC_LEN = {"gzip": 3, "xz": 6, "zstd": 4, "bzip2": 3}
 JOBS = int(os.environ.get("VERIF_JOBS", "3"))       # parallel tool runs (the machine may be shared)
